@@ -45,7 +45,7 @@ def rbytes(rng, n):
 # ----------------------------------------------------------------------------- case generators
 def gen_pay(rng, cid, n, opts=None):
     """One payment-onion case. opts: dict(meta_len, tlvs=[(type,len)], keysend, secret, small)."""
-    o = dict(meta_len=None, tlvs=[], keysend=False, secret=True, small=False, tamper="-", tstep=1)
+    o = dict(meta_len=None, tlvs=[], keysend=False, secret=True, small=False, tiny=False, tamper="-", tstep=1)
     o.update(opts or {})
     height = rng.choice([rng.range(100, 250), rng.range(70000, 900000), 499990000 - rng.below(1000)]) if not o["small"] else rng.range(1, 200)
     final_delta = rng.range(42, 90)
@@ -58,9 +58,14 @@ def gen_pay(rng, cid, n, opts=None):
         mag = rng.choice([1, 2 ** 8, 2 ** 16, 2 ** 24, 2 ** 32, 2 ** 40, 2 ** 48]) if not o["small"] else rng.choice([1, 200])
         fee = min(rng.below(mag * 255) + (1 if i == n - 1 else 0), budget // (n + 1))
         delta = final_delta if i == n - 1 else 48 + rng.below(min(slack, 60) + 1)
+        if o["tiny"]:  # the smallest payloads there are: the longest route that fits
+            fee = 1 if i == n - 1 else 0
+            delta = 42 if i == n - 1 else 48
         hops.append("%s:%d:%d:%d" % (seed, scid, fee, delta))
     final_value = int(hops[-1].split(":")[2])
-    total = final_value if rng.chance(2, 3) else final_value + rng.below(10 ** 6)
+    total = final_value if (rng.chance(2, 3) or o["tiny"]) else final_value + rng.below(10 ** 6)
+    if o["tiny"]:
+        height = 1
     meta = "-" if o["meta_len"] is None else rbytes(rng, o["meta_len"])
     if o["meta_len"] == 0:
         meta = "-"
@@ -202,6 +207,11 @@ def run_pay_family(R, rng, tier, with_model):
         lines.append(gen_pay(rng.fork("paym%d" % cid), "pm%d" % cid, n, o))
         cid += 1
     # (b) judge-only: all lengths, boundary-sized recipients, full single-bit tamper sweeps
+    # the longest routes that fit (25 hops with one-byte amounts), and the first that does not
+    for n in (24, 25, 26, 27):
+        lines.append(gen_pay(rng.fork("payt%d" % n), "pt%d" % n, n, dict(tiny=True)))
+    if tier != "quick":
+        model_idx.append(len(lines) - 3)
     njudge = 40 if tier == "quick" else 600
     for k in range(njudge):
         r = rng.fork("payj%d" % k)
